@@ -886,25 +886,37 @@ func (l *Lowerer) lowerGlobalVar(v *parser.VarDecl) error {
 	hasGroup := false
 	hasBinding := false
 	for _, attr := range v.Attributes {
-		if attr.Name == "group" && len(attr.Args) > 0 {
+		if attr.Name != "group" && attr.Name != "binding" {
+			continue
+		}
+		// The attribute counts as present whatever its argument looks like;
+		// a non-literal argument (e.g. a named constant) is a const-expression
+		// and is evaluated, not ignored.
+		var value uint32
+		if len(attr.Args) > 0 {
 			if lit, ok := attr.Args[0].(*parser.Literal); ok {
-				group, _ := strconv.ParseUint(lit.Value, 10, 32)
-				if binding == nil {
-					binding = &ir.ResourceBinding{}
+				n, _ := strconv.ParseUint(lit.Value, 10, 32)
+				value = uint32(n)
+			} else {
+				_, n, err := l.evalConstantIntExpr(attr.Args[0])
+				if err != nil {
+					return fmt.Errorf("global var '%s': @%s argument: %w", v.Name, attr.Name, err)
 				}
-				binding.Group = uint32(group)
-				hasGroup = true
+				if n < 0 {
+					return fmt.Errorf("global var '%s': @%s argument must not be negative", v.Name, attr.Name)
+				}
+				value = uint32(n)
 			}
 		}
-		if attr.Name == "binding" && len(attr.Args) > 0 {
-			if lit, ok := attr.Args[0].(*parser.Literal); ok {
-				bind, _ := strconv.ParseUint(lit.Value, 10, 32)
-				if binding == nil {
-					binding = &ir.ResourceBinding{}
-				}
-				binding.Binding = uint32(bind)
-				hasBinding = true
-			}
+		if binding == nil {
+			binding = &ir.ResourceBinding{}
+		}
+		if attr.Name == "group" {
+			binding.Group = value
+			hasGroup = true
+		} else {
+			binding.Binding = value
+			hasBinding = true
 		}
 	}
 
